@@ -157,6 +157,7 @@ def units(tier):
     us.append({'k': 'ocr'})
     us.append({'k': 'two'})
     us.append({'k': 'same'})
+    us.append({'k': 'reuse'})
     return us
 
 
@@ -329,8 +330,63 @@ def run_same(acc):
                         acc.guard('same_twprge_twice_ok')
 
 
+def run_reuse(acc, only=None):
+    """One PLSSDesc object parsed several times: a default direction given as a keyword to one parse() call applies to that call
+    only; the next call falls back to the object's config, then to MasterConfig (as it stands at the time of the call)."""
+    MC = _p.MasterConfig
+    t, r = 154, 97
+    for ns, ew in ((None, None), (None, 'W'), ('S', None), ('N', 'E')):
+        for sname, text in spellings(t, ns or '', r, ew or '', bool(ns), bool(ew))[:4]:
+            full = f"{text} Sec 14: NE/4"
+            for cns, cew in ((None, None), ('n', 'w'), ('s', 'e'), ('s', None), (None, 'e')):
+                cfg = ','.join(x for x in (cns, cew) if x) or None
+                for kns, kew in (('s', 'e'), ('n', 'w'), (None, 'e'), ('s', None)):
+                    for mns, mew in ((None, None), ('s', 'e')):
+                        key = f"reuse|{cfg}|{kns},{kew}|{mns},{mew}|{text}"
+                        if only is not None and key != only:
+                            continue
+                        case = {'reuse': True, 'key': key, 'text': full, 'config': cfg, 'keyword': [kns, kew], 'master_later': [mns, mew]}
+                        saved = (MC.default_ns, MC.default_ew)
+                        steps = []
+                        try:
+                            d = _p.PLSSDesc(full, config=cfg)
+                            steps.append(('creation', d.pp_desc, [x.trs for x in d.tracts], expected(t, ns, r, ew, cns, cew)))
+                            d.parse(default_ns=kns, default_ew=kew)
+                            steps.append(('parse(keyword)', d.pp_desc, [x.trs for x in d.tracts],
+                                          expected(t, ns, r, ew, kns or cns, kew or cew)))
+                            d.parse()
+                            steps.append(('parse() after it', d.pp_desc, [x.trs for x in d.tracts], expected(t, ns, r, ew, cns, cew)))
+                            d.parse(commit=False, default_ns=kns, default_ew=kew)
+                            pp = d.preprocess(commit=False)
+                            steps.append(('preprocess(commit=False) after it', pp, [x.trs for x in d.tracts], expected(t, ns, r, ew, cns, cew)))
+                            if mns:
+                                MC.default_ns, MC.default_ew = mns, mew
+                                d.parse()
+                                steps.append(('parse() after MasterConfig changed', d.pp_desc, [x.trs for x in d.tracts],
+                                              expected(t, ns, r, ew, cns or mns, cew or mew)))
+                        except Exception as ex:  # noqa
+                            acc.case(key, 'EXC')
+                            acc.violation('exception', f"C08:exception:{key}", case, got=f"{type(ex).__name__}: {ex}")
+                            continue
+                        finally:
+                            MC.default_ns, MC.default_ew = saved
+                        acc.case(key, [(a, b, c) for a, b, c, _ in steps])
+                        acc.states += len(steps)
+                        bad = [(name, pp, trs, want) for name, pp, trs, want in steps
+                               if not str(pp).startswith(want[0] + ' ') or trs != [want[1] + '14']]
+                        if bad:
+                            name, pp, trs, want = bad[0]
+                            acc.violation('stale_default_on_reused_object', f"C08:stale_default_on_reused_object:{name}:{cfg}:{kns},{kew}", case,
+                                          got=[pp, trs], exp=[want[0] + ' ...', [want[1] + '14']], note=f"at step: {name}")
+                        else:
+                            acc.guard('reuse_ok')
+
+
 def run_unit(unit, tier):
     acc = Acc()
+    if unit['k'] == 'reuse':
+        run_reuse(acc)
+        return acc.result()
     if unit['k'] == 'same':
         run_same(acc)
         return acc.result()
@@ -345,6 +401,9 @@ def run_unit(unit, tier):
 
 def replay(case):
     acc = Acc()
+    if case.get('reuse'):
+        run_reuse(acc, only=case['key'])
+        return acc.viol
     if case.get('ocr') or case.get('two'):
         sub = Acc()
         (run_ocr if case.get('ocr') else (run_same if case.get('same') else run_two))(sub)
@@ -357,7 +416,7 @@ def replay(case):
 def guards(info):
     g = info['guards']
     out = []
-    for name in ('direction_filled', 'non_master_default_used', 'explicit_kept_against_default', 'ocr_scrubbed', 'two_ok', 'same_twprge_twice_ok'):
+    for name in ('direction_filled', 'non_master_default_used', 'explicit_kept_against_default', 'ocr_scrubbed', 'two_ok', 'same_twprge_twice_ok', 'reuse_ok'):
         if not g.get(name):
             out.append(f"never observed: {name}")
     return out
